@@ -1,0 +1,50 @@
+//! Verification hooks (`--cfg hyperium_h3_verif`): named pre-emption points.
+//!
+//! [`point`] is called at a few places between two operations on state that is shared
+//! between tasks (the connection error cell and the connection waker). It does nothing
+//! unless a callback has been installed with [`install`]; an external harness installs a
+//! callback that parks the calling thread, which lets it realise every interleaving of the
+//! driver task and the request tasks deterministically. No behaviour change otherwise, and
+//! the module does not exist without the cfg.
+
+use std::sync::{
+    atomic::{AtomicBool, Ordering},
+    Arc, RwLock,
+};
+
+type Callback = Arc<dyn Fn(&'static str) + Send + Sync>;
+
+static INSTALLED: AtomicBool = AtomicBool::new(false);
+static CALLBACK: RwLock<Option<Callback>> = RwLock::new(None);
+
+/// Install the process-wide callback that is run at every pre-emption point.
+pub fn install<F>(callback: F)
+where
+    F: Fn(&'static str) + Send + Sync + 'static,
+{
+    *CALLBACK.write().unwrap_or_else(|e| e.into_inner()) = Some(Arc::new(callback));
+    INSTALLED.store(true, Ordering::SeqCst);
+}
+
+/// Remove the callback; every pre-emption point is a no-op again.
+pub fn uninstall() {
+    INSTALLED.store(false, Ordering::SeqCst);
+    *CALLBACK.write().unwrap_or_else(|e| e.into_inner()) = None;
+}
+
+/// A named pre-emption point. No-op unless a callback is installed.
+#[inline]
+pub fn point(name: &'static str) {
+    if !INSTALLED.load(Ordering::SeqCst) {
+        return;
+    }
+    // clone the callback out of the lock: the callback may block for a long time
+    let callback = CALLBACK
+        .read()
+        .unwrap_or_else(|e| e.into_inner())
+        .as_ref()
+        .cloned();
+    if let Some(callback) = callback {
+        callback(name)
+    }
+}
